@@ -35,18 +35,28 @@ func c13Binary(ev *vlib.Evidence, idx int) {
 	var proc *vlib.Proc
 	var addr string
 	starts := 0
+	startExited := false // the last failed start ended by itself (as opposed to being slow)
 	start := func() bool {
-		starts++
-		addr = fmt.Sprintf("127.0.0.1:%d", vlib.FreePort())
-		p, err := vlib.StartProc(filepath.Join(dir, fmt.Sprintf("pool-%d.log", starts)), []string{"HOME=" + dir}, bin, "pool", "--store=persist", "--datadir", data, "--bind", addr)
-		if err != nil || !p.WaitListening(addr, 30*time.Second) {
+		for attempt := 0; attempt < 4; attempt++ {
+			starts++
+			addr = fmt.Sprintf("127.0.0.1:%d", vlib.FreePort())
+			logPath := filepath.Join(dir, fmt.Sprintf("pool-%d.log", starts))
+			p, err := vlib.StartProc(logPath, []string{"HOME=" + dir}, bin, "pool", "--store=persist", "--datadir", data, "--bind", addr)
+			if err == nil && p.WaitListening(addr, 30*time.Second) {
+				proc = p
+				return true
+			}
+			startExited = false
 			if p != nil {
+				startExited, _ = p.Exited()
 				p.Kill(false)
 			}
-			return false
+			// another process of this machine took the port between FreePort and bind: try another one
+			if b, _ := os.ReadFile(logPath); !strings.Contains(string(b), "address already in use") {
+				return false
+			}
 		}
-		proc = p
-		return true
+		return false
 	}
 	if !start() {
 		ev.Inconclusive("pool-start")
@@ -164,6 +174,10 @@ func c13Binary(ev *vlib.Evidence, idx int) {
 	}
 	trace = append(trace, "restart after "+how)
 	if !start() {
+		if !startExited {
+			ev.Inconclusive("pool-restart-slow") // still starting after 30 s on a loaded machine: no verdict
+			return
+		}
 		sig, excerpt := vlib.CrashSignature(filepath.Join(dir, fmt.Sprintf("pool-%d.log", starts)))
 		fail("binary:pool-does-not-restart-on-its-data-directory", map[string]interface{}{"how": how, "signature": sig, "log": truncStr(excerpt, 600)})
 		return
